@@ -168,11 +168,20 @@ def main(tier):
                 ok, detail = minmax_fold(ev, ctor, t)
                 run.ob(ok, "fold|" + key, "C11 %s is a fold with the %s step seeded with its identity (or the first element); one argument: its value" % (ctor.lower(), "minimum" if ctor == "Min" else "maximum"), where_, detail,
                        sample={"evaluator": ev, "aggregate": ctor, "schema": detail[:120]})
+                if ok and ev == "eval_number":
+                    # an Integer against a Float is still compared through the Integer's double: wrong when the Integer is above 2^53
+                    run.ob(False, "order|eval_number|%s|mixed-through-f64" % ctor, "C11 the %s is that of the evaluated arguments: an Integer and a Float must be compared by value, not by the Integer's double" % ("minimum" if ctor == "Min" else "maximum"),
+                           where_, "mixed Integer/Float pairs are compared on double values: max(9007199254740993,9007199254740992.0) = Float(9007199254740992.0)")
             elif ctor == "Avg":
                 ok, detail = avg_fold(ev, t)
                 run.ob(ok, "fold|" + key, "C11 avg is (sum of all arguments) / (number of arguments), seeded with 0", where_, "sum seeded 0, divided by len" if ok else detail, sample={"evaluator": ev, "aggregate": "Avg"})
             elif ctor == "Med":
                 ok, detail = med_fold(ev, t)
+                if ok and ev == "eval_number":
+                    # the accepted comparator orders Integers by their double values: above 2^53 distinct integers tie, the (stable)
+                    # sort keeps them in argument order, and the median then depends on how the arguments were written
+                    run.ob(False, "order|eval_number|Med|integers-through-f64", "C11 the median is that of the evaluated arguments, independent of their order: Integers must be ordered as integers",
+                           where_, "sort comparator is total_cmp on the operands' double values: med(9007199254740993,9007199254740992,9007199254740994) = 9007199254740992")
                 run.ob(ok, "fold|" + key, "C11 med: collect, sort ascending with a total comparator, middle element / mean of the two middle elements", where_, detail, sample={"evaluator": ev, "aggregate": "Med", "schema": detail[:140]})
             elif ctor in ("Gcd", "Lcm"):
                 helper = "Ast.gcd" if ctor == "Gcd" else "Ast.lcm"
